@@ -15,6 +15,6 @@ static void prop_params(Tape &t, Ctx &c) { test_struct<MS::params>(t, c, "make_s
 static void prop_object(Tape &t, Ctx &c) {
     object_export_case<MS>(t, c, "make_solver::get_params", NoFix(), [](const MS &s, ptree &out) { s.get_params(out); });
 }
-static std::vector<Prop> props() { return {Prop("probe_make_solver_params", prop_params, 300, 3000, 100, 8, {1}, 1, 2), Prop("probe_make_solver_object", prop_object, 150, 1500, 100, 30, {1}, 1, 2)}; }
+static std::vector<Prop> props() { return {Prop("probe_make_solver_params", prop_params, 300, 3000, 100, 8, {1}, 1, 2), Prop("probe_make_solver_object", prop_object, 150, 1500, 100, 4, {1}, 1, 2)}; }
 static std::vector<Enum> enums() { return {}; }
 VF_MAIN(props(), enums())
